@@ -67,8 +67,10 @@ impl Core {
         request_specific: &RequestSpecific,
     ) {
         if self.server_mode && !request_from_read_only_node {
-            if let RequestTypeSpecific::FindNode(ref param) = request_specific.request_type {
-                let node = Node::new(param.target, from);
+            if let RequestTypeSpecific::FindNode(_) = request_specific.request_type {
+                // The id of the requester, not the target it is looking for: they are only
+                // the same while the requester is bootstrapping.
+                let node = Node::new(request_specific.requester_id, from);
                 let supports_signed_peers = supports_signed_peers(version);
 
                 if self.bootstrap.is_empty() {
